@@ -16,7 +16,6 @@ import (
 	"reflect"
 	"regexp"
 	"slices"
-	"strings"
 	"time"
 )
 
@@ -318,7 +317,7 @@ func forType(t reflect.Type, seen map[reflect.Type]bool, ignore bool, schemas ma
 				}
 				// An embedded field of non-struct type has no fields to promote:
 				// it is an ordinary field named after its type.
-				if name, _, _ := strings.Cut(field.Tag.Get("json"), ","); name == "" && ft.Kind() == reflect.Struct {
+				if jsonTagName(field) == "" && ft.Kind() == reflect.Struct {
 					continue
 				}
 				namedEmbedded = true
@@ -376,8 +375,7 @@ func forType(t reflect.Type, seen map[reflect.Type]bool, ignore bool, schemas ma
 			// Two fields can have the same JSON name. As in encoding/json, the one at
 			// the smallest embedding depth wins; at equal depth the one whose name
 			// comes from a tag wins, and if that does not decide, neither is a property.
-			tagName, _, _ := strings.Cut(field.Tag.Get("json"), ",")
-			cur := nameOwner{depth: len(field.Index), tagged: tagName != ""}
+			cur := nameOwner{depth: len(field.Index), tagged: jsonTagName(field) != ""}
 			if prev, taken := owners[info.name]; taken {
 				if prev.depth < cur.depth || (prev.depth == cur.depth && prev.tagged && !cur.tagged) {
 					continue
